@@ -56,7 +56,8 @@ func (f *Frame) enterLoop(li *loopInfo, b *ssa.BasicBlock, preds []*ssa.BasicBlo
 			if len(preds) > 1 {
 				name += fmt.Sprintf("@pred%d", pi+1)
 			}
-			vc.oblige(name, "inv.entry", implies(conds[pi], ctx.evalBool(inv.E)), clauseProps(inv, f.ctProps()), inv.Where, "loop invariant holds on entry: "+inv.Src)
+			g, why := vc.checkedGoal(ctx, inv.E)
+			vc.oblige(name, "inv.entry", implies(conds[pi], g), clauseProps(inv, f.ctProps()), inv.Where, "loop invariant holds on entry: "+inv.Src+why)
 		}
 	}
 	// 2. havoc
@@ -97,7 +98,10 @@ func (f *Frame) enterLoop(li *loopInfo, b *ssa.BasicBlock, preds []*ssa.BasicBlo
 	ctx.locals = true
 	ctx.block = b
 	for _, inv := range invs {
-		vc.assume(implies(reach, ctx.evalBool(inv.E)))
+		// an invariant that cannot be evaluated here is not assumed (its entry obligation fails)
+		if g, why := vc.checkedGoal(ctx, inv.E); why == "" {
+			vc.assume(implies(reach, g))
+		}
 	}
 	if f.ct != nil {
 		for _, pr := range f.en.activeClauses(f.ct.LoopPresume[li.n], f.ct) {
@@ -182,9 +186,9 @@ func (f *Frame) backEdge(li *loopInfo, latch *ssa.BasicBlock) {
 	paths := f.splitConds(latch)
 	for k, inv := range f.loopInvs(li.n) {
 		name := f.callPath + fmt.Sprintf("inv.step.%d.%s%s", li.n, clauseName(inv, k), suffix)
-		goal := ctx.evalBool(inv.E)
-		if len(paths) <= 1 {
-			vc.oblige(name, "inv.step", implies(cond, goal), clauseProps(inv, f.ctProps()), inv.Where, "loop invariant preserved: "+inv.Src)
+		goal, why := vc.checkedGoal(ctx, inv.E)
+		if len(paths) <= 1 || why != "" {
+			vc.oblige(name, "inv.step", implies(cond, goal), clauseProps(inv, f.ctProps()), inv.Where, "loop invariant preserved: "+inv.Src+why)
 			continue
 		}
 		for pi, pc := range paths {
